@@ -198,4 +198,59 @@ theorem routes_set_get_mapped (o : GOpts) (as : List RouteArg) (hne : as ≠ [])
   rw [← hraw]
   simp only [routesToBytes, routesMarshal_read as h]
 
+/-! ### lifting an accessor's statements to decoded packets
+
+One generic step for every typed accessor: on a packet that came out of the
+decoder, `Options.Get(c)` is the RFC 3396-reassembled value when that is
+non-empty and nil otherwise (`decoded_get`).  `decoded_lift` turns the three
+`GOpts` statements of an accessor whose type rejects the empty value (so the
+zero-length option gives the malformed default, which equals the absent one)
+into the statement on the decoded packet; `decoded_lift_str` does the same for
+the string accessors (empty value = "" = the absent default).  Accessors for
+which the RFC reading of the EMPTY value differs from nil (parameter request
+list, relay agent information, user class, domain search) use `decoded_get`
+directly and state the zero-length case as its own clause. -/
+
+/-- what `Options.Get(c)` returns on a decoded packet -/
+theorem decoded_get {q : Bytes} {p : Pkt4} {g : GOpts} (h : dec4 q = .ok p)
+    (hg : decOptsG q = some g) (c : UInt8) :
+    (∀ v, p.opts.f c = some v → v ≠ [] → g.get c = some v) ∧
+    (p.opts.f c = none ∨ p.opts.f c = some [] → g.get c = none) := by
+  rw [decOptsG_of_dec4 h] at hg; cases hg
+  exact ⟨fun _ hv hne => Opts.toG_get_some hv hne, fun hc => Opts.toG_get_none hc⟩
+
+/-- wf / bad / absent of an accessor whose spec rejects the empty value, lifted
+to decoded packets -/
+theorem decoded_lift {α β : Type} (c : UInt8) (spec : Bytes → Option α) (acc : GOpts → β)
+    (ok : α → β) (dflt : β) (hempty : spec [] = none)
+    (wf : ∀ o v x, o.get c = some v → spec v = some x → acc o = ok x)
+    (bad : ∀ o v, o.get c = some v → spec v = none → acc o = dflt)
+    (absent : ∀ o, o.get c = none → acc o = dflt)
+    {q : Bytes} {p : Pkt4} {g : GOpts} (h : dec4 q = .ok p) (hg : decOptsG q = some g) :
+    (∀ v x, p.opts.f c = some v → spec v = some x → acc g = ok x) ∧
+    (∀ v, p.opts.f c = some v → spec v = none → acc g = dflt) ∧
+    (p.opts.f c = none → acc g = dflt) := by
+  obtain ⟨hsome, hnone⟩ := decoded_get h hg c
+  refine ⟨fun v x hv hs => ?_, fun v hv hs => ?_, fun hn => absent g (hnone (.inl hn))⟩
+  · have hne : v ≠ [] := by intro e; subst e; rw [hempty] at hs; cases hs
+    exact wf g v x (hsome v hv hne) hs
+  · by_cases hne : v = []
+    · subst hne; exact absent g (hnone (.inr hv))
+    · exact bad g v (hsome v hv hne) hs
+
+/-- wf / absent of a string accessor (total spec, empty value reads as "" like
+the absent option), lifted to decoded packets -/
+theorem decoded_lift_str (c : UInt8) (spec : Bytes → Option Bytes) (acc : GOpts → Bytes)
+    (hempty : spec [] = some [])
+    (wf : ∀ o v x, o.get c = some v → spec v = some x → acc o = x)
+    (absent : ∀ o, o.get c = none → acc o = [])
+    {q : Bytes} {p : Pkt4} {g : GOpts} (h : dec4 q = .ok p) (hg : decOptsG q = some g) :
+    (∀ v x, p.opts.f c = some v → spec v = some x → acc g = x) ∧
+    (p.opts.f c = none → acc g = []) := by
+  obtain ⟨hsome, hnone⟩ := decoded_get h hg c
+  refine ⟨fun v x hv hs => ?_, fun hn => absent g (hnone (.inl hn))⟩
+  by_cases hne : v = []
+  · subst hne; rw [hempty] at hs; cases hs; exact absent g (hnone (.inr hv))
+  · exact wf g v x (hsome v hv hne) hs
+
 end Dhcp.V4
